@@ -88,7 +88,7 @@ var variants = map[string][]string{
 	"vault.Create": {"valid", "valid-2of3", "no-addresses", "zero-threshold", "threshold-too-big", "cbor"},
 	"vault.AuthorizeAction": {"exec-transfer", "exec-transfer", "suspend", "resume", "exec-too-much", "exec-unknown-method", "exec-malformed", "exec-add-escrow", "exec-withdraw", "exec-withdraw-self", "policy-self",
 		"policy", "authority", "authority-invalid", "wrong-nonce", "not-authorized", "unknown-vault", "different-action", "two-actions", "cbor"},
-	"vault.CancelAction": {"valid", "wrong-nonce", "not-authorized", "unknown-vault", "cbor"},
+	"vault.CancelAction": {"valid", "wrong-nonce", "not-authorized", "suspend-member", "unknown-vault", "cbor"},
 
 	"beacon.SetEpoch": {"next", "not-advancing", "far", "cbor"},
 	"beacon.VRFProve": {"valid", "wrong-epoch", "bad-proof", "foreign-proof", "not-node", "cbor", "off-curve", "bad-scalar", "short"},
@@ -245,6 +245,13 @@ func genHistory(r *hlib.Rng, w *world, blocks int) []string {
 			for nn := numValidators; nn < numValidators+numCompute; nn++ {
 				add(txl("registry.RegisterNode", "valid-renew", nn, r))
 			}
+		}
+		if r.Chance(1, 6) {
+			// a pending admin-only action of the 2-of-3 vault, a cancel by a suspend-only member (fails),
+			// then the second authorization completes the action
+			add(txl("vault.AuthorizeAction", "policy", 1, r))
+			add(txl("vault.CancelAction", "suspend-member", -1, r))
+			add(txl("vault.AuthorizeAction", "policy", 1, r))
 		}
 		if r.Chance(1, 6) {
 			// a vault with a withdraw policy on its own account withdraws from itself
